@@ -6,6 +6,7 @@ pub mod c12;
 pub mod c13;
 pub mod c14;
 pub mod c16;
+pub mod loadthreads;
 
 use crate::exec::{Outcome, Scenario, Stats};
 use crate::prng::Digest;
@@ -50,6 +51,7 @@ pub fn configs(prop: &str) -> Vec<Config> {
             c("text", 40_000, 1_500_000),
             c("shapes", 30_000, 1_000_000),
             c("deep", 2_000, 20_000),
+            c("loadthreads", 400, 6_000),
         ],
         "C11" => vec![c("backends", 8_000, 250_000), c("typed", 6_000, 150_000)],
         "C12" => vec![
@@ -57,6 +59,7 @@ pub fn configs(prop: &str) -> Vec<Config> {
             c("history", 4_000, 40_000),
             c("threads", 4_000, 60_000),
             c("multirule", 2_500, 30_000),
+            c("loadthreads", 400, 6_000),
             Config { kind: "process", quick: 4, thorough: 4, exhaustive: true },
         ],
         "C13" => vec![c("validate", 12_000, 400_000), c("torn", 12_000, 400_000), c("threads", 1_500, 20_000)],
@@ -67,6 +70,9 @@ pub fn configs(prop: &str) -> Vec<Config> {
 }
 
 pub fn generate(prop: &str, kind: &str, seed: u64, run: u64, thorough: bool) -> Scenario {
+    if kind == "loadthreads" {
+        return loadthreads::generate(prop, seed, run, thorough);
+    }
     match prop {
         "C01" => c01::generate(kind, seed, run, thorough),
         "C03" => c03::generate(kind, seed, run, thorough),
@@ -81,6 +87,9 @@ pub fn generate(prop: &str, kind: &str, seed: u64, run: u64, thorough: bool) -> 
 }
 
 pub fn execute(sc: &Scenario) -> Outcome {
+    if sc.kind == "loadthreads" {
+        return loadthreads::execute(sc);
+    }
     match sc.property.as_str() {
         "C01" => c01::execute(sc),
         "C03" => c03::execute(sc),
